@@ -38,7 +38,7 @@ Qed.
 Lemma peek_env : forall n s, env_eq s (fst (peek n s)).
 Proof.
   intros. unfold peek. pose proof (reload_env n s) as H. destruct (reload n s) as [s1 ok].
-  destruct ok; cbn [fst] in *; auto. destruct H. split; cbn; auto.
+  destruct ok; cbn [fst] in *; auto.
 Qed.
 
 Lemma access_env : forall n s, env_eq s (fst (access n s)).
@@ -50,14 +50,13 @@ Qed.
 Lemma delete_file_env : forall n s, env_eq s (fst (delete_file n s)).
 Proof.
   intros. unfold delete_file. pose proof (reload_env n s) as H. destruct (reload n s) as [s1 ok].
-  destruct ok; cbn [fst] in *; auto. destruct (entry_delete n (dk s1)). destruct H. split; cbn; auto.
+  destruct ok; cbn [fst] in *; auto. destruct (entry_delete n (dk s1)). exact H.
 Qed.
 
 Lemma with_file_env : forall n g s, env_eq s (fst (with_file n g s)).
 Proof.
   intros. unfold with_file. pose proof (access_env n s) as H. destruct (access n s) as [s1 ok].
   destruct ok; cbn [fst] in *; auto. destruct (aget n (dk s1)); cbn [fst]; auto.
-  destruct H. split; cbn; auto.
 Qed.
 
 Lemma create_file_env : forall n sz mt s, env_eq s (create_file n sz mt s).
@@ -372,15 +371,6 @@ Qed.
 
 (* ---------------------------------------------------------------- the oracle on model traces *)
 
-(* the scan lists of a history are duplicate-free (a directory listing) *)
-Definition op_ok (o : op) : bool :=
-  match o with
-  | TtlPass _ _ _ _ scan => nodupb scan
-  | PolicyPass _ _ scan _ => nodupb scan
-  | Cleanup _ _ _ scan _ => nodupb scan
-  | _ => true
-  end.
-
 Lemma chk_step_sound : forall s o,
   wf s -> op_ok o = true ->
   chk_step (cap s) (now s) (dk s) (keys (fm s)) o
@@ -515,4 +505,130 @@ Proof.
   - intros ->. reflexivity.
   - intros ->. reflexivity.
   - intros Ha ->. apply Z.eqb_neq in Ha. rewrite Ha. reflexivity.
+Qed.
+
+(* ---------------------------------------------------------------- statements in model terms *)
+
+Lemma prot_intro : forall n d f, aget n d = Some f -> is_persisted f = true ->
+  prot n d = Some (f_mtime f, f_size f).
+Proof. intros n d f H1 H2. unfold prot. rewrite H1, H2. reflexivity. Qed.
+
+Lemma prot_elim : forall n d x, prot n d = Some x ->
+  exists f, aget n d = Some f /\ is_persisted f = true /\ (f_mtime f, f_size f) = x.
+Proof.
+  intros n d x. unfold prot. destruct (aget n d) as [f|]; [|discriminate].
+  destruct (is_persisted f) eqn:E; [|discriminate]. intros [= <-]. eauto.
+Qed.
+
+Lemma keeps_stays : forall n s s' f,
+  keeps n s s' -> aget n (dk s) = Some f -> is_persisted f = true -> stays n f s'.
+Proof.
+  intros n s s' f K H1 H2. pose proof (K _ (prot_intro _ _ _ H1 H2)) as H.
+  apply prot_elim in H. destruct H as (f' & A & B & C). injection C as C1 C2.
+  exists f'. auto.
+Qed.
+
+Theorem persisted_never_removed_stmt : forall ops s n f,
+  aget n (dk s) = Some f -> is_persisted f = true ->
+  (forall o, In o ops -> unprotects o n = false) ->
+  stays n f (fst (run s ops)).
+Proof.
+  intros ops s n f H1 H2 U. eapply keeps_stays; eauto. intros x Hx.
+  apply persisted_never_removed; auto.
+Qed.
+
+Theorem delete_refused_stmt : forall s n f,
+  aget n (dk s) = Some f -> is_persisted f = true ->
+  snd (step s (Delete n)) = ORes RPersisted /\ stays n f (fst (step s (Delete n))).
+Proof.
+  intros s n f H1 H2. pose proof (prot_intro _ _ _ H1 H2) as Hp.
+  destruct (delete_request_refused s n _ Hp) as [A B]. split; auto.
+  eapply keeps_stays; eauto. apply (step_keeps n (Delete n) s eq_refl).
+Qed.
+
+Theorem eviction_stmt : forall s n f,
+  aget n (dk s) = Some f -> is_persisted f = true -> stays n f (evict s).
+Proof. intros. eapply keeps_stays; eauto. apply evict_keeps. Qed.
+
+Theorem cleanup_stmt : forall s n f c pol u scan order,
+  aget n (dk s) = Some f -> is_persisted f = true ->
+  stays n f (fst (cleanup c pol u scan order s)).
+Proof. intros. eapply keeps_stays; eauto. apply cleanup_keeps. Qed.
+
+Theorem ttl_pass_stmt : forall s n f tti ttl thr u scan,
+  aget n (dk s) = Some f -> is_persisted f = true ->
+  stays n f (ttl_pass tti ttl thr u scan s).
+Proof. intros. eapply keeps_stays; eauto. apply ttl_pass_keeps. Qed.
+
+Theorem policy_pass_stmt : forall s n f thr total scan order,
+  aget n (dk s) = Some f -> is_persisted f = true ->
+  stays n f (fst (policy_pass thr total scan order s)).
+Proof. intros. eapply keeps_stays; eauto. apply policy_pass_keeps. Qed.
+
+Theorem force_delete_stmt : forall s n f ttl owns,
+  aget n (dk s) = Some f -> is_persisted f = true ->
+  stays n f (fst (force_delete n ttl owns false s))
+  /\ snd (force_delete n ttl owns false s) <> ODel true false.
+Proof.
+  intros s n f ttl owns H1 H2. split.
+  - eapply keeps_stays; eauto. apply force_delete_keeps. auto.
+  - unfold force_delete.
+    pose proof (peek_keeps n n s _ (prot_intro _ _ _ H1 H2)) as Hp.
+    destruct (peek n s) as [s1 ok]. cbn [fst] in Hp. apply prot_elim in Hp.
+    destruct Hp as (f1 & A & B & _).
+    destruct ok; cbn [snd]; [rewrite A | discriminate].
+    destruct ((ttl <? now s1 - f_mtime f1) || negb owns); [|discriminate].
+    destruct (peek n s1) as [s2 ok2]. rewrite B. discriminate.
+Qed.
+
+(* exactness for the states of histories *)
+Theorem cleanup_exact_pointwise_stmt : forall c0 t0 ops c pol u scan order m,
+  let s := fst (run (init c0 t0) ops) in
+  roomy (cap s) (dk s) = true -> NoDup scan -> should_aggro c u = false ->
+  aget m (dk (fst (cleanup c pol u scan order s))) = ttl_after (c_tti c) (c_ttl c) scan s m.
+Proof. intros. apply cleanup_exact; auto. apply reachable_wf. Qed.
+
+Theorem cleanup_exact_stmt : forall c0 t0 ops c pol u scan order m f,
+  let s := fst (run (init c0 t0) ops) in
+  roomy (cap s) (dk s) = true -> NoDup scan -> should_aggro c u = false ->
+  (forall k, In k (keys (dk s)) -> In k scan) ->
+  now s mod NS <= c_tti c ->
+  aget m (dk s) = Some f ->
+  (aget m (dk (fst (cleanup c pol u scan order s))) = None <->
+   is_persisted f = false /\ ready (c_tti c) (c_ttl c) (now s) f = true).
+Proof. intros. apply cleanup_exact_set; auto. apply reachable_wf. Qed.
+
+(* with more files on disk than the map holds, a scan evicts: a file that is neither idle nor
+   expired nor listed-as-due disappears during a "normal" pass (by LRU eviction) *)
+Definition pressure_ops : list op :=
+  [Create 0 10 1000; SetPersist 0 true; Create 1 10 1000; SetPersist 1 true;
+   Create 2 10 1000; SetPersist 2 true; Reopen; ClearPersist 0; Reopen].
+
+Theorem exact_under_pressure_refuted :
+  exists ops tti ttl scan m f,
+    let s := fst (run (init 2 1000) ops) in
+    NoDup scan /\ (forall k, In k (keys (dk s)) -> In k scan) /\
+    aget m (dk s) = Some f /\ ttl_due tti ttl (now s) (amem m (fm s)) f = false /\
+    aget m (dk (ttl_pass tti ttl 0 None scan s)) = None.
+Proof.
+  exists pressure_ops, 86400000000000, 86400000000000, [0; 1; 2]%N, 0%N,
+         (mkf 1000 10 (Some 0) None).
+  cbn zeta. split; [repeat constructor; cbn; intuition discriminate|].
+  split; [|vm_compute; auto].
+  vm_compute. intros k [<-|[<-|[<-|[]]]]; auto.
+Qed.
+
+Theorem policy_pass_stmt2 : forall c0 t0 ops thr tot scan order s',
+  let s := fst (run (init c0 t0) ops) in
+  NoDup scan ->
+  policy_pass thr (Some tot) scan order s = (s', OPass true false) ->
+  chk_policy (cap s) thr tot (now s) scan order (dk s) (keys (fm s)) (dk s') = true.
+Proof. intros. eapply policy_pass_sound; eauto. apply reachable_wf. Qed.
+
+Theorem policy_total_preorder :
+  (forall a b, policy_cmp a b <= 0 \/ policy_cmp b a <= 0) /\
+  (forall a b c, policy_cmp a b <= 0 -> policy_cmp b c <= 0 -> policy_cmp a c <= 0) /\
+  (forall a b, Z.sgn (policy_cmp a b) = - Z.sgn (policy_cmp b a)).
+Proof.
+  split; [exact policy_cmp_total|]. split; [exact policy_cmp_trans | exact policy_cmp_antisym].
 Qed.
